@@ -208,6 +208,10 @@ def check_trace(fam, key, rows, ranks, exp, feats, out, strict, pos_dm=None):
     if not rows:
         if exp:
             out.append((fam, "trace-missing", f, exp, None))
+        elif t == "iter" and n == 1:
+            # the outermost loop of a nest always starts, also over an empty fiber: its iteration trace has its header
+            out.append((fam, "header-missing", f | {"outermost_loop_over_nothing"},
+                        [x + "_pos" for x in ranks] + list(ranks) + ["fiber_pos"], None))
         return
     header = [x + "_pos" for x in ranks] + list(ranks) + ["fiber_pos"]
     if rows[0] != header:
